@@ -1,5 +1,5 @@
 (* C11 — serialised page ranges describe the tree faithfully and in diffable order. *)
-From MST Require Import Base TreeM Spec TreeHash TreeInv TreeRanges TreeRL Top.
+From MST Require Import Base TreeM Spec TreeHash TreeInv TreeRanges TreeNest TreeRL Top.
 
 (* [subpages p] is the pre-order list of pages (page, each key's lower subtree in key order, high page);
    [range_spec q r]: r = (first key, last key, reference digest) of q's whole subtree content. *)
@@ -12,3 +12,20 @@ Theorem C11_ranges :
      Forall2 (range_spec digest V H) (subpages digest V (root digest V (fst (mst_root_hash digest V H t)))) l).
 Proof. exact Top.C11_ranges. Qed.
 Print Assumptions C11_ranges.
+
+(* for every page p of every reachable hashed tree (children p = each key's lower subtree in key order, then
+   the high page): every child's span lies inside p's span, strictly on at least one side; sibling spans are
+   disjoint and ascending *)
+Theorem C11_nesting :
+  forall (digest V : Type) (H : list (tok digest V) -> digest) (lvl_of : N -> N),
+  (forall k : N, lvl_of k < 255) ->
+  forall (ops : list (op V)) (t : mst digest V), run digest V H lvl_of ops = Ok t ->
+  forall p, In p (subpages digest V (root digest V (fst (mst_root_hash digest V H t)))) ->
+  (forall q f l fq lq, In q (children digest V p) ->
+     first_key V (content digest V p) = Some f -> last_key V (content digest V p) = Some l ->
+     first_key V (content digest V q) = Some fq -> last_key V (content digest V q) = Some lq ->
+     f <= fq /\ lq <= l /\ (f < fq \/ lq < l)) /\
+  (forall l1 c1 l2 c2 l3 e1 s2, children digest V p = l1 ++ c1 :: l2 ++ c2 :: l3 ->
+     last_key V (content digest V c1) = Some e1 -> first_key V (content digest V c2) = Some s2 -> e1 < s2).
+Proof. exact Top.C11_nesting. Qed.
+Print Assumptions C11_nesting.
